@@ -16,8 +16,9 @@ SPEC = Spec(
                 files={"zz_verif_c04_batcher_test.go": "c04/batcher_test.go"},
                 test="TestVerifC04Batcher", driver="drv_c04", n={"quick": 1500, "thorough": 100000}, timeout_s=1500),
     ],
-    rule="mergesplit/profiles: corpus first (design-time witnesses: 4-point sum with max 3 items; one 500-byte record with max 100 "
-         "bytes; one 5-sample profile with max 3 items), then generated payload trees (0-4 resources x 0-4 scopes x 0-6 items; "
+    rule="mergesplit/profiles: corpus first (the two design-time witnesses: 4-point sum with max 3 items; one 500-byte record with max 100 "
+         "bytes; and the witness of the profiles items sizer defect, found by the harness, not at design time: one 5-sample profile "
+         "with max 3 items), then generated payload trees (0-4 resources x 0-4 scopes x 0-6 items; "
          "metrics 0-4 metrics x 0-6 points of the five types + empty type; profiles with 0-5 samples; empty containers at every "
          "level; resource/scope/metric identity fields and schema URLs mostly non-empty; padding 0..200 bytes incl. 127/128, "
          "16370/16384 in thorough) through the real MergeSplit, one or two requests, items and bytes sizer, max in "
@@ -51,9 +52,9 @@ SPEC = Spec(
     ],
     assumptions=[
         "metric identity on split: FALSE on /repo (open finding metric-identity-lost/anonymous-split-off-fragment); the theorem tied to "
-        "/repo is C04_conserve_metrics_partial (flag false); C04_conserve_metrics is about the repair 6f81c0a15 that was not taken "
+        "/repo is C04_conserve_metrics_partial (flag false); C04_conserve_metrics is about the repair 6f81c0a15 (builder branch verif-fix-C04; not in /repo) that was not taken "
         "(no identity-preserving repair can keep the golden byte sizes of TestMergeSplitMetricsBasedOnByteSize) and is tied only when "
-        "the check runs against /tmp/wt-C04",
+        "the check runs (VERIF_REPO) against a tree that contains that repair",
         "metrics x bytes: size bound FALSE on /repo (open finding batch-exceeds-max/metrics-bytes-empty-fragment), cachedSize is an upper "
         "bound (>=): oracle on every run, no theorem",
         "Consume, the timer flush and Shutdown are serialised by currentBatchMu (modelled as atomic labels); flush goroutines end in any order",
